@@ -60,12 +60,14 @@ ITEMS = [
     open spec fn edges(&self) -> SSet<EntityUID> { ancestors_of(*self) }
     open spec fn key(&self) -> EntityUID { self.uid }
     open spec fn node_wf(&self) -> bool { entity_wf(*self) }
+    open spec fn direct(&self) -> SSet<EntityUID> { self.parents@ }
 ''', tag='spec'),
     Fn(ENT, 'impl TCNode<EntityUID> for Entity > fn get_key', name='TCNode::get_key', vis='', ret=None),
     Fn(ENT, 'impl TCNode<EntityUID> for Entity > fn add_edge_to', name='TCNode::add_edge_to', vis='', ret=None),
     Fn(ENT, 'impl TCNode<EntityUID> for Entity > fn out_edges', name='TCNode::out_edges', vis='', ret=None, sig_rewrites=[BOX], rewrites=[UNBOX]),
     Fn(ENT, 'impl TCNode<EntityUID> for Entity > fn has_edge_to', name='TCNode::has_edge_to', vis='', ret=None),
     Fn(ENT, 'impl TCNode<EntityUID> for Entity > fn reset_edges', name='TCNode::reset_edges', vis='', ret=None),
+    Fn(ENT, 'impl TCNode<EntityUID> for Entity > fn direct_edges', name='TCNode::direct_edges', vis='', ret=None, sig_rewrites=[BOX], rewrites=[UNBOX]),
     Raw(text='}', tag='spec'),
 ]
 CANARIES = ['add_parent']
